@@ -360,6 +360,29 @@ def run(ctx):
                     ctx.inst('N', 'validate_ref#propagated', bool(fates) and all(f_[0] == 'try' for f_ in fates), 'link validation result is ?-propagated',
                              c.span, key=rv.name + '|N|propagated')
 
+    # .. and the question "may this cel be linked to?" is answered from the *whole* input table, in whatever direction the link points:
+    # the closure handed to RawCel::validate captures only data derived from self.data (built before the conversion loop), never the
+    # output that loop is still filling (seed C06-n looked the target up in `result`, so links to a later frame were refused)
+    cvb = ctx.anchor('asefile::cel::CelsData::validate')
+    if cvb is not None and rv is not None:
+        ncl = 0
+        for c in q.calls(cvb, rv.name):
+            for a_ in q.arg_terms(c):
+                found = [x for x in walk(a_) if isinstance(x, tuple) and x and x[0] == 'closure']
+                nested = {y for x in found for _n, t_ in x[2] for y in walk(t_) if isinstance(y, tuple) and y and y[0] == 'closure'}
+                for x in found:
+                    if x in nested:
+                        continue            # a closure inside the captured table's own construction
+                    if True:
+                        ncl += 1
+                        caps = [t_ for _n, t_ in x[2]]
+                        from_input = bool(caps) and all(any(is_param_path(y, 1, ['data']) for y in walk(t_)) for t_ in caps)
+                        from_output = any(isinstance(y, tuple) and y and y[0] == 'agg' and (y[1] or '').endswith('cel::CelsData') for t_ in caps for y in walk(t_))
+                        ctx.inst('N', 'validate_ref#table', from_input and not from_output, 'the link-target test captures %s; must be a table built from '
+                                 'self.data before the loop (not the output under construction)' % [show(t_)[:60] for t_ in caps], c.span,
+                                 key=cvb.name + '|N|link-table')
+        ctx.floor('link-target closures handed to RawCel::validate', ncl, 1)
+
     # ---------- emptiness / offset of absent cel
     ie = ctx.anchor('asefile::cel::Cel::is_empty')
     if ie is not None:
@@ -402,6 +425,13 @@ def run(ctx):
     import iorules as _io
     _io.take_bytes_length_check(ctx, 'V')       # the inflater may deliver the whole expected size (seed C06-j capped it at 1 MiB + 1)
     render.cel_rows_grow_only(ctx, rule='E')   # a stored cel cannot be dropped by a later chunk of a lower layer (seed C06-k): it would read as empty
+    import common as _common
+    _common.rejection_inventory(ctx, 'N')
+    import C17 as _c17
+    _c17.normal_divisions(ctx, 'K5')          # Cel::image blends every pixel onto a transparent canvas through normal() (seed C06-l)
+    import C11 as _c11d
+    import rule as _Rv
+    _c11d.decoders(_Rv.View(ctx, {'L1': 'L1/L2', 'P1': 'V', 'P2': 'V', 'P3': 'V'}))     # indexed pixels become the colour the palette chunks give that index (seed C06-m)
     render.layer_image_unconditional(ctx, rule='N')
     # Cel::image is the shared routine's image for (file, cel id), handed on untouched: no fast path of its own (seed C06-i)
     render.image_delegation(ctx, rule='N', only=('asefile::cel::Cel::image',))
